@@ -239,9 +239,12 @@ def _check(pid, P, tier, seed, bdir, ev):
             pn = [n for (kd, n) in cc.get('clauses', []) if kd == 'ensures' and n.startswith('p_')]
             if pn:
                 pclauses[ck] = pn
-        # A change that only ADDS code to a function (a defensive check, a cache, a fast path) often keeps the property but defeats the proof
-        # (the verifier would need lemmas to see that the new path agrees with the old one).  If the text of a failing function differs from
-        # the text the contract was written for by insertions only, the failed proof alone is not reported: undecided, the concrete search decides.
+        # Evidence weighting by edit size.  A point edit (an operator, a constant, an identifier, a dropped call, an off-by-one: at most
+        # EDIT_SIZE_LIMIT changed tokens in the failing function) that breaks a proof is a semantic change; harmless point edits such as
+        # commuted operands are absorbed by the second opinion.  After a larger REWRITE of the function (an added defensive check, a cache,
+        # reordered statements, normalise-then-compute instead of compute-then-normalise) a failed proof is ambiguous: the verifier may simply
+        # lack the lemmas that show the new path agrees with the old one.  Then the failed proof alone is not reported: undecided, and the
+        # concrete search over the real crates decides.  (The function's own text unchanged = the cause lies in a callee: verdict stands.)
         fpath = os.path.join(VERIF, 'contracts', 'fn_text.lock.json')
         if os.path.exists(fpath) and failures:
             import difflib
@@ -265,15 +268,16 @@ def _check(pid, P, tier, seed, bdir, ev):
                         ins += j2 - j1
                     if op in ('delete', 'replace'):
                         dele += i2 - i1
-                if ins >= 15 and dele * 4 <= ins:
+                if ins + dele > EDIT_SIZE_LIMIT:
                     insdom[fk] = (ins, dele)
             for x in failures:
                 if x.verdict and x.fn_key in insdom:
                     x.verdict = False
-                    x.message = ('the change only ADDS code to this function (%d tokens inserted, %d removed): the failed proof may be incompleteness, not reported '
-                                 'without a concrete failing input: %s' % (insdom[x.fn_key][0], insdom[x.fn_key][1], x.message))
+                    x.message = ('this function was REWRITTEN (%d tokens inserted, %d removed; a failed proof is reported on its own only for edits of at most %d tokens): '
+                                 'the failed proof may be incompleteness, not reported without a concrete failing input: %s'
+                                 % (insdom[x.fn_key][0], insdom[x.fn_key][1], EDIT_SIZE_LIMIT, x.message))
             if insdom:
-                cov.setdefault('insertion_only_changes', {})[uname] = {VR.short(k): v for k, v in insdom.items()}
+                cov.setdefault('rewritten_functions', {})[uname] = {VR.short(k): v for k, v in insdom.items()}
         # functions that did not exist when the contracts were written have no contract: a caller that now delegates to one cannot be
         # proved, which is a lost anchor (undecided), not a violation
         if tlock and uname in tlock.get('known_functions', {}):
@@ -643,6 +647,9 @@ def scan_suite_overrides():
             problems.append('%s: `impl Ciphersuite` defines %s%s -- the default-world assumption (or the Taproot unit) was written for another set of overrides'
                             % (crate, ('additionally ' + ', '.join(extra)) if extra else '', (' and no longer ' + ', '.join(missing)) if missing else ''))
     return problems, seen
+
+
+EDIT_SIZE_LIMIT = int(os.environ.get('VERIF_EDIT_SIZE_LIMIT', '24'))
 
 
 def second_opinion(uname, unit_path, meta, keys, P, vnames=None):
